@@ -597,6 +597,45 @@ func (c *Check) totalityRules(parsed map[*ssa.Function]*comparator) {
 			c.bad("C08-R3", key, p.relFile(cm.fn.Pos()), "the order of "+w.what+" ("+w.fn+") is not total: "+why+" [chain: "+strings.Join(keys, " , ")+"]")
 		}
 	}
+	// fmt.Sprint(Info) is an identity key only while it prints every field: NodeInfo (and
+	// the types of its exported fields) must not have String, Error, Format or GoString
+	// methods, which fmt would call instead of dumping the fields.
+	if ni := p.structsOf("internal/graph", "NodeInfo"); len(ni) == 1 {
+		var hit []string
+		seenT := map[types.Type]bool{}
+		var scan func(t types.Type, path string)
+		scan = func(t types.Type, path string) {
+			if seenT[t] {
+				return
+			}
+			seenT[t] = true
+			// Sprint receives values (and reads fields of a non-addressable value), so only
+			// value-receiver methods are found by fmt
+			ms := types.NewMethodSet(t)
+			for i := 0; i < ms.Len(); i++ {
+				switch ms.At(i).Obj().Name() {
+				case "String", "Error", "Format", "GoString":
+					hit = append(hit, path+"."+ms.At(i).Obj().Name())
+				}
+			}
+			if st, ok := t.Underlying().(*types.Struct); ok {
+				for i := 0; i < st.NumFields(); i++ {
+					if st.Field(i).Exported() {
+						ft := st.Field(i).Type()
+						if _, basic := ft.Underlying().(*types.Basic); !basic {
+							scan(ft, path+"."+st.Field(i).Name())
+						}
+					}
+				}
+			}
+		}
+		scan(ni[0], "NodeInfo")
+		if len(hit) == 0 {
+			c.ok("C08-R3", "identity:Sprint(NodeInfo)", "", "fmt.Sprint of a NodeInfo prints every field", "neither NodeInfo nor the types of its exported fields have String/Error/Format/GoString methods")
+		} else {
+			c.bad("C08-R3", "identity:Sprint(NodeInfo)", "", "fmt.Sprint(NodeInfo) no longer prints every field because of the method "+strings.Join(dedup(hit), ", ")+": the last tie-break of the node and edge orders compares only what that method prints, so nodes that differ in the omitted fields (same name in two binaries) are left in map-iteration order")
+		}
+	}
 	// slices filled from a map and ordered by a literal comparator: the chain must contain
 	// the key that is unique per element (the map key the element was stored under)
 	for _, site := range []struct{ rel, fn, slice, key, why string }{
@@ -717,3 +756,4 @@ func mentionsKeyVar(keys []string, v string) bool {
 	}
 	return false
 }
+
